@@ -43,7 +43,10 @@ def build_cli(hooks=False):
     target = os.path.join(BUILD, name) if REPO == "/repo" else os.path.join(REPO, "target-verif-" + name)
     env = dict(os.environ, CARGO_NET_OFFLINE="true", CARGO_TARGET_DIR=target)
     if hooks:
-        env["RUSTFLAGS"] = GUARD_FLAGS
+        # (VERIF_EXTRA_RUSTFLAGS: used by tools/coverage.py to add -C instrument-coverage)
+        env["RUSTFLAGS"] = (GUARD_FLAGS + " " + os.environ.get("VERIF_EXTRA_RUSTFLAGS", "")).strip()
+    elif os.environ.get("VERIF_EXTRA_RUSTFLAGS"):
+        env["RUSTFLAGS"] = os.environ["VERIF_EXTRA_RUSTFLAGS"]
     r = subprocess.run(
         ["cargo", "build", "--offline", "--quiet", "-p", "ast-grep", "--bin", "ast-grep"],
         cwd=REPO, env=env, stdout=subprocess.PIPE, stderr=subprocess.STDOUT, text=True)
